@@ -226,15 +226,16 @@ end Witness
     value round trip only for admissible page value lists (`pk j`) and the storage round trip only
     for admissible level sections (`sk j`); `pagesOK` (decidable: it runs the writer's cuts) says
     every page the writer produces is admissible. `roundtrip` is the case without limits. -/
-theorem roundtrip_limits {β γ} (n : Node) (cd : Nat → ColCodec β γ) (B : Nat) (pk : Nat → List Nat → Bool)
+theorem roundtrip_limits {β γ} (n : Node) (cd : Nat → ColCodec β γ) (B : Nat) (nk : Nat → Bool)
+    (pk : Nat → List Nat → Bool)
     (sk : Nat → β → β → Bool) (gs : List GroupCfg) (rows : List Val)
     (hwf : wfN n = true) (hconf : ∀ v ∈ rows, confN n v = true)
-    (hB : levelsBounded B n = true) (hcd : ∀ j, j < leavesN n → (cd j).OKOn B (pk j) (sk j))
+    (hB : levelsBounded B n = true) (hcd : ∀ j, j < leavesN n → (cd j).OKOn B nk (pk j) (sk j))
     (hdom : ∀ v ∈ rows, valsIn (fun j => (cd j).okV) 0 (shredN n 0 0 0 v) = true)
-    (hpages : pagesOK n cd pk sk gs rows = true)
+    (hpages : pagesOK n cd nk pk sk gs rows = true)
     (hcuts : cutsAligned n gs rows = true) :
     readFile n cd (writeFile n cd gs rows) = some rows :=
-  readFileWith_writeFile_on true n cd B pk sk gs rows hwf hconf hB hcd hdom hpages (fun _ => hcuts)
+  readFileWith_writeFile_on true n cd B nk pk sk gs rows hwf hconf hB hcd hdom hpages (fun _ => hcuts)
 
 /-- **C01 with every codec hypothesis but the compressor discharged, for every column type.**
     Column `j` has physical type and value encoding `cols j` — any combination parquet-go accepts:
@@ -254,12 +255,12 @@ theorem roundtrip_typed (n : Node) (cols : Nat → ColSpec) (v1 : Bool) (comp : 
     (hwf : wfN n = true) (hconf : ∀ v ∈ rows, confN n v = true) (hB : levelsBounded 255 n = true)
     (hsup : ∀ j, j < leavesN n → (cols j).supported = true)
     (hdom : ∀ v ∈ rows, valsIn (fun j => (cols j).val.okV) 0 (shredN n 0 0 0 v) = true)
-    (hpages : pagesOK n (typedCodec n cols v1 comp decomp) (fun j => (cols j).val.okP)
+    (hpages : pagesOK n (typedCodec n cols v1 comp decomp) (fun _ => true) (fun j => (cols j).val.okP)
       (fun j => okSOf v1 ((levelsN n 0 0).getD j (0, 0))) gs rows = true)
     (hcuts : cutsAligned n gs rows = true) :
     readFile n (typedCodec n cols v1 comp decomp) (writeFile n (typedCodec n cols v1 comp decomp) gs rows) =
       some rows :=
-  roundtrip_limits n _ 255 _ _ gs rows hwf hconf hB
+  roundtrip_limits n _ 255 _ _ _ gs rows hwf hconf hB
     (fun j hj =>
       have h := C01Codecs.valCodecOf_ok (cols j) (hsup j hj)
       C01Codecs.mkCodec_ok _ _ h.1 h.2.1 h.2.2.1 h.2.2.2 v1 _ comp decomp hcmp)
@@ -295,7 +296,8 @@ example : wfN witnessSchema = true ∧ (∀ v ∈ typedRows, confN witnessSchema
   | 2, _ => decide
   | 3, _ => decide
 
-example : pagesOK witnessSchema (typedCodec witnessSchema typedCols true id some) (fun j => (typedCols j).val.okP)
+example : pagesOK witnessSchema (typedCodec witnessSchema typedCols true id some) (fun _ => true)
+    (fun j => (typedCols j).val.okP)
     (fun j => okSOf true ((levelsN witnessSchema 0 0).getD j (0, 0))) witnessGroups typedRows = true := by
   decide +kernel
 end TypedWitness
